@@ -144,6 +144,10 @@ let () = serve (fun fn req ->
     of_option (of_wres (fun fs -> JArr (SL.map of_tfield fs)))
       (purchase_decode_all (jschema (jfield req "schema")) (jnat (jfield req "depth")) (jn (jfield req "m"))
          (jbytes (jfield req "d")))
+  | "hexlify" -> of_bytes (hexlify (jbytes (jfield req "b")))
+  | "unhexlify" -> of_option of_bytes (unhexlify (jbytes (jfield req "s")))
+  | "claim_id_of_hash" -> of_bytes (claim_id_of_hash (jbytes (jfield req "h")))
+  | "hash_of_claim_id" -> of_option of_bytes (hash_of_claim_id (jbytes (jfield req "s")))
   | "url_parse" -> of_option of_url (url_parse (jstr_cp (jfield req "s")))
   | "url_print" -> of_str (url_print (jurl (jfield req "u")))
   | "canon" -> of_str (canon (jstr_cp (jfield req "s")))
